@@ -463,6 +463,15 @@ def check_signature(fn_name, sig, args):
             if isinstance(a, _np.ndarray) and a.ndim > 0:
                 raise LayoutError("%s: argument %d is an array, signature wants scalar %s" % (fn_name, k, t))
             continue
+        from . import gram as _gram
+        if isinstance(a, _gram.AbsRows):
+            if t.ndim != 2:
+                raise LayoutError("%s: argument %d is an (n,3) array, signature wants %s" % (fn_name, k, t))
+            continue
+        if _gram.is_abs(a):
+            if t.ndim != 1:
+                raise LayoutError("%s: argument %d is a 3-vector, signature wants %s" % (fn_name, k, t))
+            continue        # an abstract (Gram-mode) 3-vector stands for a C-contiguous float64 array of shape (3,)
         if not isinstance(a, _np.ndarray):
             raise LayoutError("%s: argument %d is %s, signature wants %s" % (fn_name, k, type(a).__name__, t))
         if a.ndim != t.ndim:
